@@ -1,6 +1,7 @@
 (* C10 model driver.  cases:
      P <hex>   a path string (hex bytes, "-" = empty)   -> the 8 decomposition views + 10 queries
      N         the NULL pointer                          -> the 10 queries
+     Q <hex1> <hex2>  the same buffer holding first string 1 then string 2: the record of each
    line:  rn= rd= rp= rel= par= fn= st= ex= q=<bits> in=<bits> || rn=<view> ... ex=<view>
    rn/rel/fn/st/ex are texts (hex); rd/rp/par are PATHS, printed canonically: "/" if there is a root
    directory, then the elements joined by "/" (hex).  The M line's canonical form is the extracted
@@ -35,29 +36,40 @@ let in_bit len = function
     if l = 0 || (l > 0 && o >= 0 && o + l <= len) then "1" else "0"
   | _ -> "0"
 
+(* one record for a string: (model observable, model structural, spec observable) *)
+let record (s : BinNums.coq_Z list) =
+  let len = List.length s in
+  let views = [ zix_path_root_name s; zix_path_root_directory s; zix_path_root_path s;
+                zix_path_relative_path s; zix_path_parent_path s; zix_path_filename s;
+                zix_path_stem s; zix_path_extension s ] in
+  let text v = show_res (fun v -> hex (view_text s v)) v in
+  let path v = show_res (fun v -> canon (PathDecSpec.as_path (view_text s v))) v in
+  let names = ["rn"; "rd"; "rp"; "rel"; "par"; "fn"; "st"; "ex"] in
+  let kinds = [text; path; path; text; path; text; text; text] in
+  let obs = List.map2 (fun (n, k) v -> n ^ "=" ^ k v) (List.combine names kinds) views in
+  let q = show_res bits (zix_queries (Some s)) in
+  let inb = String.concat "" (List.map (in_bit len) views) in
+  let st = List.map2 (fun n v -> n ^ "=" ^ show_res view_str v) names views in
+  let m_obs = Printf.sprintf "%s q=%s in=%s" (String.concat " " obs) q inb in
+  let m_st = String.concat " " st in
+  let open PathDecSpec in
+  let s_obs = Printf.sprintf "rn=%s rd=%s rp=%s rel=%s par=%s fn=%s st=%s ex=%s q=%s in=11111111"
+      (hex (std_root_name s)) (canon (as_path (std_root_directory s))) (canon (as_path (std_root_path s)))
+      (hex (std_relative_path s)) (canon (std_parent_path s)) (hex (std_filename s))
+      (hex (std_stem s)) (hex (std_extension s)) (bits (std_queries s)) in
+  (m_obs, m_st, s_obs)
+
 let () =
   iter_lines (fun line ->
     match split_ws line with
     | ["P"; h] ->
-      let s = List.map z_of_int (bytes_of_hex h) in
-      let len = List.length s in
-      let views = [ zix_path_root_name s; zix_path_root_directory s; zix_path_root_path s;
-                    zix_path_relative_path s; zix_path_parent_path s; zix_path_filename s;
-                    zix_path_stem s; zix_path_extension s ] in
-      let text v = show_res (fun v -> hex (view_text s v)) v in
-      let path v = show_res (fun v -> canon (PathDecSpec.as_path (view_text s v))) v in
-      let names = ["rn"; "rd"; "rp"; "rel"; "par"; "fn"; "st"; "ex"] in
-      let kinds = [text; path; path; text; path; text; text; text] in
-      let obs = List.map2 (fun (n, k) v -> n ^ "=" ^ k v) (List.combine names kinds) views in
-      let q = show_res bits (zix_queries (Some s)) in
-      let inb = String.concat "" (List.map (in_bit len) views) in
-      let st = List.map2 (fun n v -> n ^ "=" ^ show_res view_str v) names views in
-      Printf.printf "M %s q=%s in=%s || %s\n" (String.concat " " obs) q inb (String.concat " " st);
-      let open PathDecSpec in
-      Printf.printf "S rn=%s rd=%s rp=%s rel=%s par=%s fn=%s st=%s ex=%s q=%s in=11111111\n"
-        (hex (std_root_name s)) (canon (as_path (std_root_directory s))) (canon (as_path (std_root_path s)))
-        (hex (std_relative_path s)) (canon (std_parent_path s)) (hex (std_filename s))
-        (hex (std_stem s)) (hex (std_extension s)) (bits (std_queries s))
+      let (mo, ms, so) = record (List.map z_of_int (bytes_of_hex h)) in
+      Printf.printf "M %s || %s\nS %s\n" mo ms so
+    | ["Q"; h1; h2] ->
+      (* same pointer, buffer rewritten between the calls: each call must answer for the string it sees *)
+      let (mo1, ms1, so1) = record (List.map z_of_int (bytes_of_hex h1)) in
+      let (mo2, ms2, so2) = record (List.map z_of_int (bytes_of_hex h2)) in
+      Printf.printf "M %s %s || %s %s\nS %s %s\n" mo1 mo2 ms1 ms2 so1 so2
     | ["N"] ->
       (* NULL stands for the empty path *)
       Printf.printf "M q=%s\nS q=%s\n" (show_res bits (zix_queries None)) (bits (PathDecSpec.std_queries []))
